@@ -5,12 +5,13 @@ import numpy as np
 from hypothesis import strategies as st
 
 from ..core import Clause, Violation
+from .. import gens
 
 RULE = ("Cases: (grid, exhaustive) T in {1,2}, M=K=1 (and M=2,K=1 / M=1,K=2 for T=1): every combination of carrier "
         "frequency over {below, first edge, mid-bins, last edge, above} of edges [1,2,4] and AM frequency over the "
         "same classes of edges2 [0.5,1,2,3] x {energy, amplitude} x squash_time in {False,'sum','mean'}; (random) "
         "Hypothesis arrays T<=60, M<=4, K<=4 with independent carrier / AM bin sets (1..12 bins, linear or log), "
-        "frequencies snapped to edges with p=0.3 and out-of-range on either axis. Oracle: triple loop "
+        "frequencies snapped to edges with p=0.3 and out-of-range on either axis, arrays handed over C-contiguous / column-major / strided / read-only. Oracle: triple loop "
         "holo[t,j,i] += w[t,m,k] iff f1[t,m] in carrier bin i and f2[t,m,k] in AM bin j (half-open bins); shape "
         "[T x AM bins x carrier bins]; 'sum' == full.sum(0), 'mean' == full.mean(0) (<=1e-12 rel). Non-trivial: "
         ">=1 out-of-range or edge-valued frequency, or carrier and AM bin counts differ.")
@@ -46,7 +47,9 @@ def oracle(case, rec):
     H = brute(f1, f2, a2, e1, e2, mode)
     scale = 1e-12 * (1 + H.sum())
     outs = {}
-    ins = [x.copy() for x in (f1, f2, a2)]      # the routine gets the copies; the case stays pristine for the replay file
+    lay = case.get('layout', 'C')
+    ins = [gens.relayout(x.copy(), lay) for x in (f1, f2, a2)]      # what the routine gets (the case stays pristine)
+    rec.cls('layout=' + lay)
     for sq in (False, 'sum', 'mean'):
         try:
             outs[sq] = np.asarray(emd.spectra.holospectrum(ins[0], ins[1], ins[2], e1.copy(), e2.copy(), mode=mode, squash_time=sq))
@@ -115,7 +118,7 @@ def random_case(draw):
         return f
     return {'f1': vals((T, M), e1, lo1, hi1), 'f2': vals((T, M, K), e2, lo2, hi2),
             'a2': np.round(rng.random((T, M, K)) * 3, 4), 'e1': e1, 'e2': e2,
-            'mode': draw(st.sampled_from(['energy', 'amplitude']))}
+            'mode': draw(st.sampled_from(['energy', 'amplitude'])), 'layout': draw(st.sampled_from(gens.LAYOUTS))}
 
 
 CLAUSES = [
